@@ -59,6 +59,12 @@ class Rule(Harness):
         return {'client': self.client, 'markers': self.markers, 'enc': list(self.enc), 'mac': list(self.mac)}
 
     def inputs(self):
+        if self.enc == ('ALL',):
+            # the whole table at once: every cipher and MAC name the table knows, plus one arbitrary unknown cipher (a row edited through an alias of
+            # another row, or an edit that leaks to a row of another name, shows as a changed row outside the rule's set)
+            from vf.harness import mods
+            master = mods()[1].ssh2_kexdb.SSH2_KexDB.MASTER_DB
+            return {'enc': list(master['enc']) + [zx.fresh_str('e0', 2, TOK)], 'mac': list(master['mac'])}
         return {'enc': build(ENC_FORMS, self.enc, 'e'), 'mac': build(MAC_FORMS, self.mac, 'm')}
 
     def run(self, M, inp):
@@ -283,6 +289,9 @@ def tasks(tier):
                 if q and client and (len(e) > 1 or len(m) > 1):
                     continue
                 T.append(Rule(client, markers, e, m))
+    for client in (False, True):
+        for markers in ('', 's', 'c'):
+            T.append(Rule(client, markers, ('ALL',), ('ALL',)))
     for e, m in [(('chacha-db',), ('plain-db',)), (('cbc-db',), ('etm-db',)), (('cbc-db',), ('plain-db',)), (('ctr-db',), ('etm-db',)), (('cbc-db', 'ctr-db'), ('etm-db', 'plain-db')),
                  (('free-tok',), ('etm-db',)), (('cbc-db',), ('free-tok',))]:
         for marker in (False, True):
